@@ -165,13 +165,23 @@ def configure_keeps_compat(acc):
                               "kept" if want == "keep" else "dropped"), None)
 
 
+PACKAGER_FLAGS = ["default+-flto", "default+-O3"]
+
+
 def build_abi(abi):
     """shared library as configure --enable-obsolete-api=<abi> builds it -> (abi, {(sym, ver): @|@@} or None, error)"""
     tree = build.Tree()
-    d = tree.scratch("abi-" + abi)
+    d = tree.scratch("abi-" + re.sub(r"\W", "_", abi))
     try:
         cc, cflags, ldflags = build.FLAVOURS["so"]
-        gd = build.gen_headers(os.path.join(d, "gen"), compat_abi=abi)
+        if abi.startswith("default+"):
+            # a packager's flags on the default configuration: link-time optimisation moves top-level asm (the
+            # .symver directives of older compilers) away from the definitions it names
+            cflags += " " + abi[8:]
+            ldflags += " " + abi[8:]
+            gd = build.gen_headers(os.path.join(d, "gen"))
+        else:
+            gd = build.gen_headers(os.path.join(d, "gen"), compat_abi=abi)
         objs = build.compile_objects(os.path.join(d, "obj"), gd, cc, cflags)
         lib = os.path.join(d, "libcrypt.so.1")
         p = subprocess.run("%s -shared %s %s -Wl,--version-script=%s -Wl,-soname,libcrypt.so.1 -Wl,-z,defs -Wl,-z,text "
@@ -294,9 +304,20 @@ def run(tier):
             acc.violation("%s/symbol-default-changed/%s@%s" % (PID, sym, ver),
                           "%s%s%s became %s%s%s" % (sym, dflt, ver, sym, cur[(sym, ver)], ver), None)
     # (2c) the distribution flavours of --enable-obsolete-api
-    for abi, syms, err in pool.pmap(build_abi, sorted(ABI_FLAVOURS)):
+    for abi, syms, err in pool.pmap(build_abi, sorted(ABI_FLAVOURS) + PACKAGER_FLAGS):
         if syms is None:
             acc.violation("%s/abi-flavour-does-not-build/%s" % (PID, abi), "--enable-obsolete-api=%s: %s" % (abi, err), None)
+            continue
+        if abi.startswith("default+"):
+            # same (symbol, version) table as the plain build of the same tree
+            for (sym, ver), dflt in sorted(cur.items()):
+                acc.count("evaluations")
+                acc.count("packager_flag_pairs")
+                acc.cls(("packager-flags", abi, sym, ver))
+                if syms.get((sym, ver)) != dflt:
+                    acc.violation("%s/symbol-missing/%s/%s@%s" % (PID, abi.replace(" ", ""), sym, ver),
+                                  "built with CFLAGS %s the library exports %s for %s@%s, the plain build %s%s%s" % (
+                                      abi[8:], syms.get((sym, ver), "nothing"), sym, ver, sym, dflt, ver), None)
             continue
         for sym, dflt, ver in ABI_FLAVOURS[abi]:
             acc.count("evaluations")
@@ -331,6 +352,7 @@ def run(tier):
         "symbol_version_pairs_checked": len(rel),
         "golden_symbol_version_pairs_checked": len(gold),
         "obsolete_api_flavours_built": sorted(ABI_FLAVOURS),
+        "packager_flag_builds": PACKAGER_FLAGS,
         "host_platform_floors_checked": int(a.n.get("floors_checked", 0)),
         "configure_compat_decisions_checked": int(a.n.get("configure_decisions", 0)),
         "flavour_symbol_version_pairs_checked": int(a.n.get("flavour_pairs", 0)),
